@@ -11,6 +11,8 @@
                                           t (std.thisFile) l<cps> (literal)
             jpaths = list of "=<cps>", ';' separated, in command-line order
             main   = cps
+     runv   <priv;fuel> <cwd> <tree> <progs> <jpaths> <repr cps> <data bytes> <tag:strict:items>
+            the root is a virtual source (-e / stdin / --ext-code / --tla-code): display name, text, program
        -> OK <value> T=<eval tags> L=<log>      value: s<cps> | b<bytes> | [v v ...]
           ERR IMPORT <why> <importer cps> <pos> <path cps> T=.. L=..
           ERR INFREC .. | ERR MAIN <why> .. | FUEL .. | PANIC <site> ..
@@ -82,26 +84,41 @@ let show_event = function
   | EvEval (sid, tag) -> "e" ^ hex_of_n sid ^ ":" ^ of_list_n tag
   | EvMsg (w, p) -> "m" ^ show_why w ^ ":" ^ of_list_n p
 
+let show_run (st, r) =
+  let log = List.rev st.s_log in
+  let tags = List.filter_map (function EvEval (_, tag) -> Some ("=" ^ of_list_n tag) | _ -> None) log in
+  let tail = "\tT=" ^ String.concat ";" tags ^ "\tL=" ^ String.concat ";" (List.map show_event log) in
+  (match r with
+   | Ok v -> "OK\t" ^ show_value v
+   | Err (ImportFailed (w, imp, pos, p)) ->
+       "ERR\tIMPORT\t" ^ show_why w ^ "\t" ^ of_list_n imp ^ "\t" ^ hex_of_n pos ^ "\t" ^ of_list_n p
+   | Err (InfiniteRecursion sid) -> "ERR\tINFREC\t" ^ hex_of_n sid
+   | Err (MainLoadFailed w) -> "ERR\tMAIN\t" ^ show_why w
+   | Panic s -> "PANIC\t" ^ string_of_coq s
+   | OutOfFuel -> "FUEL") ^ tail
+
+let parse_opts opts = match String.split_on_char ';' opts with
+  | [p; f] -> (p = "1", int_of_string ("0x" ^ f))
+  | _ -> failwith "import: bad opts"
+
 let handle (fields : ostring list) : ostring =
   match fields with
   | ["run"; opts; cwd; tree; progs; jpaths; main] ->
-      let (priv, fuel) = (match String.split_on_char ';' opts with
-        | [p; f] -> (p = "1", int_of_string ("0x" ^ f))
-        | _ -> failwith "import: bad opts") in
+      let (priv, fuel) = parse_opts opts in
       let t = parse_tree tree in
-      let (st, r) = run_concrete t priv (strs_of cwd) (parse_progs t progs) (nat_of_int fuel)
-                      (strs_of jpaths) (list_n_of main) in
-      let log = List.rev st.s_log in
-      let tags = List.filter_map (function EvEval (_, tag) -> Some ("=" ^ of_list_n tag) | _ -> None) log in
-      let tail = "\tT=" ^ String.concat ";" tags ^ "\tL=" ^ String.concat ";" (List.map show_event log) in
-      (match r with
-       | Ok v -> "OK\t" ^ show_value v
-       | Err (ImportFailed (w, imp, pos, p)) ->
-           "ERR\tIMPORT\t" ^ show_why w ^ "\t" ^ of_list_n imp ^ "\t" ^ hex_of_n pos ^ "\t" ^ of_list_n p
-       | Err (InfiniteRecursion sid) -> "ERR\tINFREC\t" ^ hex_of_n sid
-       | Err (MainLoadFailed w) -> "ERR\tMAIN\t" ^ show_why w
-       | Panic s -> "PANIC\t" ^ string_of_coq s
-       | OutOfFuel -> "FUEL") ^ tail
+      show_run (run_concrete t priv (strs_of cwd) (parse_progs t progs) (nat_of_int fuel)
+                  (strs_of jpaths) (list_n_of main))
+  | ["runv"; opts; cwd; tree; progs; jpaths; repr; data; vprog] ->
+      let (priv, fuel) = parse_opts opts in
+      let t = parse_tree tree in
+      let d = list_n_of data in
+      let vp = (match String.split_on_char ':' vprog with
+        | [tag; strict; items] ->
+            { p_tag = list_n_of tag; p_strict = List.map parse_expr (split_on ';' strict);
+              p_items = List.map parse_expr (split_on ';' items) }
+        | _ -> failwith "import: bad virtual prog") in
+      show_run (run_concrete_virtual t priv (strs_of cwd) ((d, vp) :: parse_progs t progs) (nat_of_int fuel)
+                  (strs_of jpaths) (list_n_of repr) d)
   | ["parent"; p] ->
       (match parent (list_n_of p) with None -> "N" | Some q -> "S" ^ of_list_n q)
   | ["join"; a; b] -> of_list_n (join (list_n_of a) (list_n_of b))
